@@ -23,6 +23,8 @@ Tok == [
   a5  |-> [s |-> "Plain Name <a5@bcc.test>", n |-> "Plain Name", a |-> "a5@bcc.test", ok |-> TRUE],
   a6  |-> [s |-> "user%relay.example@to.test", n |-> "", a |-> "user%relay.example@to.test", ok |-> TRUE],   \* '%' is atext
   a7  |-> [s |-> "\"user@internal\"@gw.test", n |-> "", a |-> "user@internal@gw.test", ok |-> TRUE],   \* a local part that needs quoting: it holds an '@'
+  a8  |-> [s |-> "reply+0123456789abcdef0123456789abcdef0123456789@very-long-subdomain-name.of-a-corporation.example.org", n |-> "",
+           a |-> "reply+0123456789abcdef0123456789abcdef0123456789@very-long-subdomain-name.of-a-corporation.example.org", ok |-> TRUE],   \* longer than a header line
   bad |-> [s |-> "not an address", n |-> "", a |-> "", ok |-> FALSE],
   bad2 |-> [s |-> "trailing@", n |-> "", a |-> "", ok |-> FALSE] ]
 TokIds == DOMAIN Tok
@@ -79,7 +81,8 @@ HiddenBcc(st) == {st.Bcc[i].a : i \in DOMAIN st.Bcc} \ Visible(st)
 (* design model: call sequences *)
 CONSTANTS MAXLEN, MENU     \* MENU: name of the call menu ("small", "full")
 
-NameCls == [plain |-> "Sales Team", quoted |-> "Smith,  John \"JS\" (Sales)", utf8 |-> "Grüße Ünï"]
+NameCls == [plain |-> "Sales Team", quoted |-> "Smith,  John \"JS\" (Sales)", utf8 |-> "Grüße Ünï",
+            utf8sp |-> "Müller, Jörg (Büro: Support) <x>"]    \* needs encoding AND holds characters special in a phrase
 
 C(op, k, ts, name) == [op |-> op, k |-> k, ts |-> ts, name |-> name]
 
@@ -93,6 +96,7 @@ MenuSmall ==
   \cup {C("addformat", "Bcc", <<"a1">>, NameCls.quoted)}
   \cup {C("reset", "To", <<>>, ""), C("add", "Cc", <<"a6">>, ""), C("add", "To", <<"a7">>, "")}
   \cup {C("render", "To", <<>>, ""), C("envfrom", "Env", <<"a2">>, "")}
+  \cup {C("addformat", "To", <<"a1">>, NameCls.utf8sp), C("add", "Cc", <<"a8">>, "")}
   \cup {C("envign", "Env", <<"bad">>, ""), C("envign", "Env", <<"bad", "a5">>, "")}
 
 MenuFull ==
@@ -109,6 +113,7 @@ MenuFull ==
   \cup {C("replyto", "Reply", <<t>>, "") : t \in {"a2", "a3"}}
   \cup {C("addformat", k, <<"a1">>, NameCls[nm]) : k \in Kinds, nm \in DOMAIN NameCls}
   \cup {C("fromformat", "From", <<"a4">>, NameCls[nm]) : nm \in DOMAIN NameCls}
+  \cup {C("set", k, <<"a8">>, "") : k \in Kinds} \cup {C("from", "From", <<"a8">>, "")}
   \cup {C("reset", "To", <<>>, ""), C("render", "To", <<>>, "")} \cup {C("set", k, <<t>>, "") : k \in Kinds, t \in {"a6", "a7"}} \cup {C("envfrom", "Env", <<"a7">>, "")}
   \cup {C("envign", "Env", <<"bad">>, ""), C("envign", "Env", <<"bad2", "a5">>, ""), C("envign", "Env", <<>>, "")}
 
